@@ -104,6 +104,21 @@ class FSRunner:
         chk.violation(msg, dict(instance=norm_inst(h.inst), history=h.label, steps=[list(map(str, s)) for s in h.steps],
                                 snapshots=h.snaps, trace_tail=h.rows[-40:]))
 
+_ref_cache = {}
+def reference_listing(inst):
+    """files (path -> sha, audit files by presence only) an uninterrupted run of inst leaves under o/"""
+    key = json.dumps(norm_inst(inst), sort_keys=True)
+    if key not in _ref_cache:
+        rr = fc.real_runs(inst, [dict(env={}, bufsize=inst.get("bufsize", 2), timeout=60)])[0]
+        _ref_cache[key] = listing_of(rr.snapshot) if rr.completed and rr.rc == 0 else None
+    return _ref_cache[key]
+def listing_of(snap):
+    out = {}
+    for p, v in snap.items():
+        if v.get("kind") != "file" or not p.startswith("o/"): continue
+        out[p] = "present" if p.endswith(".audit.json") else v.get("sha")
+    return out
+
 def converge_judge(runner, inst, cleaned):
     """final run of a crash history: cleaned -> completes with Expected files, finalized tasks not re-executed;
     not cleaned -> exits non-zero when a scheduled task has leftovers and never executes that task"""
@@ -116,6 +131,12 @@ def converge_judge(runner, inst, cleaned):
         expected_files = set(exp["files"]) | set(norm_inst(inst)["pre"])
         ran = set(exec_counts(last.cmdlog))
         if cleaned:
+            ref = reference_listing(inst)
+            if ref is not None and last.completed and last.rc == 0:
+                got = listing_of(last.snapshot)
+                if got != ref:
+                    diff = sorted(set(ref) ^ set(got))[:5] or sorted(p for p in ref if got.get(p) != ref[p])[:5]
+                    runner.report("C03", "after '%s' the files / contents differ from an uninterrupted run: %s" % (h.label, diff), h, known_id="F7" if f7 else None)
             if not (last.completed and last.rc == 0):
                 runner.report("C03", "re-run after cleanup did not complete (rc=%s) in history %s%s" % (last.rc, h.label, " [task %s was killed inside its publication window]" % f7 if f7 else ""), h, known_id="F7" if f7 else None)
             elif set(lastpr["final"]) != expected_files or any(k != "complete" for f, k in lastpr["kind"].items() if f in exp["files"]):
@@ -202,6 +223,27 @@ def check_C03(tier):
             # acceptor cannot predict exactly: these histories are judged by the monitors only
             for h in hs: h.accept = False
         R.histories(inst, hs, judge=converge_judge(R, inst, False))
+    # a task whose declared output is a DIRECTORY with many files (published by one rename), consumed downstream
+    dinst = dict(name="DIR", max=1, bufsize=2,
+                 procs=[zoo.src("s", ["1"]),
+                        dict(name="a", kind="cmd", ins=["in"], outs=["parts"], outpaths={"parts": "o/parts"},
+                             arg="mkdir {o:parts} && for i in $(seq 1 150); do echo part$i > {o:parts}/p$i; done && cat {i:in} > /dev/null"),
+                        dict(name="b", kind="cmd", ins=["x"], outs=["out"], outpaths={"out": "o/count.txt"}, arg="cat {i:x}/* | wc -l > {o:out}")],
+                 edges=[zoo.E("s.out", "a.in"), zoo.E("a.parts", "b.x")])
+    dh = []
+    for spec in ["fin.rename.begin@o/parts#1", "fin.rename.done@o/parts#1", "fin.extra.done@o/parts/#1", "fin.extra.done@o/parts/#40", "fin.extra.begin@o/parts/#100", "fin.rmtmp.begin@_scipipe_tmp.a.#1", "cmd.end#1"]:
+        h = fs.History(dinst, [("run", {"VERIF_CRASH": spec}), ("cleanup",), ("run", None)], label="directory output: crash %s, cleanup, re-run" % spec); h.accept = False
+        dh.append(h)
+    def dir_judge(h, exp):
+        ref = reference_listing(dinst); last = h.runs[-1]
+        if ref is None: chk.undecided.append("reference run of the directory-output workflow failed"); return
+        if not last.completed or last.rc != 0:
+            R.report("C03", "re-run after cleanup did not complete (history %s): %s" % (h.label, last.stderr[-160:]), h); return
+        got = listing_of(last.snapshot)
+        if got != ref:
+            R.report("C03", "after '%s' the files / contents differ from an uninterrupted run: %d vs %d files, count.txt %r vs %r"
+                     % (h.label, len(got), len(ref), (last.snapshot.get("o/count.txt") or {}).get("text"), "150\n"), h)
+    R.histories(dinst, dh, judge=dir_judge)
     # random external kills while slow commands run
     inst = FB(); inst["ctl"] = {"ALL.sleep": "0.15"}
     hs = []
